@@ -69,7 +69,7 @@ theorem counterexample_K2 : ¬ TimerEqualsAllOffsets := by
   intro h
   have := h .dedicated (.rbf (.sporadic 35 10) (.scalar 3)) (.rbf (.curve [8, 9, 11, 17]) (.scalar 3)) 3 200
     (by decide) (by simp [RB.ArrWF, Arr.WF]) ⟨by simp [Arr.Exact], Cost.scalar_strictPos 3 (by omega)⟩
-    (by simp [RB.ArrWF, Arr.WF]; decide) ⟨by simp [Arr.Exact]; decide, Cost.scalar_strictPos 3 (by omega)⟩ (by omega)
+    (by simp [RB.ArrWF, Arr.WF]; decide) ⟨by simp [Arr.Exact], Cost.scalar_strictPos 3 (by omega)⟩ (by omega)
   rw [timer_pruning_lossy.1, timer_pruning_lossy.2] at this
   cases this
 
